@@ -154,3 +154,54 @@ def timeoutExamplesOk : Bool :=
   parseTimeout "1h30m".toUTF8.toList == some 5400000000000 && parseTimeout "".toUTF8.toList == none &&
   parseTimeout "5x".toUTF8.toList == none && parseTimeout "-5s".toUTF8.toList == some (-5000000000)
 #guard timeoutExamplesOk
+
+/-! ## Accepted time-outs fit a `time.Duration` -/
+
+theorem parseGroups_le (fuel acc : Nat) (cs : List Char) (d : Nat) (h : parseGroups fuel acc cs = some d) : d ≤ 2 ^ 63 := by
+  induction fuel generalizing acc cs with
+  | zero => simp [parseGroups] at h
+  | succ f ih =>
+    simp only [parseGroups] at h
+    split at h
+    · simp at h
+    · split at h
+      · simp at h
+      · split at h
+        · simp at h
+        · split at h
+          · simp at h
+          · split at h
+            · simp only [Option.some.injEq] at h
+              subst h
+              omega
+            · exact ih _ _ h
+
+theorem finishTimeout_range (neg : Bool) (body : List Char) (n : Int) (h : finishTimeout neg body = some n) :
+    -(2 ^ 63 : Int) ≤ n ∧ n ≤ 2 ^ 63 - 1 := by
+  unfold finishTimeout at h
+  split at h
+  · simp only [Option.some.injEq] at h
+    subst h
+    constructor <;> decide
+  · split at h
+    · simp at h
+    · next d hd =>
+      have hle := parseGroups_le _ _ _ _ hd
+      split at h
+      · simp only [Option.some.injEq] at h
+        subst h
+        constructor <;> omega
+      · split at h
+        · simp at h
+        · simp only [Option.some.injEq] at h
+          subst h
+          constructor <;> omega
+
+/-- **C19 (an accepted `app_timeout` fits a Duration).**  Whatever text is given — bare numbers of any length (milliseconds),
+several `<number><unit>` groups, a sign — if the value is accepted at all, the stored number of nanoseconds lies within the
+range of a signed 64-bit integer: overflow is refused, never wrapped around. -/
+theorem C19_timeout_fits_duration (v : CBytes) (n : Int) (h : parseTimeout v = some n) :
+    -(2 ^ 63 : Int) ≤ n ∧ n ≤ 2 ^ 63 - 1 := by
+  unfold parseTimeout at h
+  simp only [] at h
+  split at h <;> exact finishTimeout_range _ _ n h
